@@ -201,4 +201,51 @@ theorem ring_agrees_valid (flagsR flagsF W maxDist : Nat) (hfl : FlagsRF flagsR 
     exact runRing_agrees flagsR flagsF W hfl hbig (init ++ [x]) {} oR oF 0 0 #[] Bnd_fresh hW hg (Or.inl hWpos) hrel0
       (by simpa using hsz) hsus hnf
 
+/-- On any part of a valid stream, the status of the ring driver's last call (the earlier ones being
+    suspended) is one of four: `Done`, more room, more input, cannot make progress. -/
+theorem ring_last_status_valid (flagsR flagsF W maxDist : Nat) (hfl : FlagsRF flagsR flagsF) (hbig : 32768 ≤ W)
+    (oR : Array UInt8) (hW : oR.size = W) (hg : badGeometry flagsR W 0 = false)
+    (hz : hasFlag flagsR fParseZlib = false) (hstop : hasFlag flagsR fStopOnBlockBoundary = false)
+    (c : Array UInt8) (cs : List (Array UInt8)) (b : Array UInt8) (res : Inflated)
+    (hspec : inflateSpec #[] maxDist (catList (c :: cs) ++ b) 0 = .accept res)
+    (hsus : ∀ x ∈ (runRing flagsR W {} oR 0 #[] (c :: cs)).dropLast, suspended x.1)
+    (lastR : Res × Nat) (hlast : (runRing flagsR W {} oR 0 #[] (c :: cs)).getLast? = some lastR) :
+    lastR.1.status = stDone ∨ lastR.1.status = stHasMoreOutput ∨ lastR.1.status = stNeedsMoreInput ∨
+    lastR.1.status = stFailedCannotMakeProgress := by
+  have hA := ring_agrees_valid flagsR flagsF W maxDist hfl hbig oR (Array.replicate (W * ((c :: cs).length + 1)) 0) hW hg hz hstop
+    _ res hspec (c :: cs).length (c :: cs) b rfl rfl (by simp) hsus
+  generalize hfs : runCalls flagsF 0 {} (Array.replicate (W * ((c :: cs).length + 1)) 0) 0 #[]
+    (ringGrants flagsR W {} oR 0 0 #[] (c :: cs)) = fs at hA
+  have hfne : fs ≠ [] := RunsAgree.nonempty _ _ _ hA (by simp [runRing])
+  obtain ⟨lastF, hlastF⟩ : ∃ lf, fs.getLast? = some lf := by
+    cases h : fs.getLast? with
+    | none => exact absurd (List.getLast?_eq_none_iff.mp h) hfne
+    | some lf => exact ⟨lf, rfl⟩
+  have hsusF := RunsAgree.suspended _ _ _ hA hsus
+  obtain ⟨hl1, _⟩ := RunsAgree.last _ _ _ hA lastR lastF hlast hlastF
+  have hgeoF : badGeometry flagsF (Array.replicate (W * ((c :: cs).length + 1)) (0 : UInt8)).size 0 = false := by
+    simp [badGeometry, hfl.flat]
+  have hgr : ringGrants flagsR W {} oR 0 0 #[] (c :: cs) =
+      (c, 0 + W) :: ringGrants flagsR W (decompress {} (#[] ++ c) oR 0 (W - 0) flagsR).r
+        (decompress {} (#[] ++ c) oR 0 (W - 0) flagsR).out (ringNext W (0 + (decompress {} (#[] ++ c) oR 0 (W - 0) flagsR).written))
+        (baseNext W 0 (0 + (decompress {} (#[] ++ c) oR 0 (W - 0) flagsR).written))
+        ((#[] ++ c).extract (decompress {} (#[] ++ c) oR 0 (W - 0) flagsR).consumed (#[] ++ c).size) cs := rfl
+  have hmono := grantsMono_ringGrants flagsR W (c :: cs) {} oR 0 0 #[]
+  have hcat := catChunks_ringGrants flagsR W (c :: cs) {} oR 0 0 #[]
+  rw [hgr] at hfs hmono hcat
+  have hone := runCalls_last flagsF 0 _ {} (Array.replicate (W * ((c :: cs).length + 1)) 0) 0 #[] c (0 + W)
+    Bnd_fresh hgeoF hmono (by rw [hfs]; exact hsusF) lastF (by rw [hfs]; exact hlastF)
+  dsimp only at hone
+  rw [hcat] at hone
+  have hpre : (Array.replicate (W * ((c :: cs).length + 1)) (0 : UInt8)).extract 0 0 = #[] := by simp
+  have hnever := prefix_never_fails {} (#[] ++ catList (c :: cs)) b (Array.replicate (W * ((c :: cs).length + 1)) 0) 0
+    (0 + lastGrant ((c, 0 + W) :: ringGrants flagsR W (decompress {} (#[] ++ c) oR 0 (W - 0) flagsR).r
+        (decompress {} (#[] ++ c) oR 0 (W - 0) flagsR).out (ringNext W (0 + (decompress {} (#[] ++ c) oR 0 (W - 0) flagsR).written))
+        (baseNext W 0 (0 + (decompress {} (#[] ++ c) oR 0 (W - 0) flagsR).written))
+        ((#[] ++ c).extract (decompress {} (#[] ++ c) oR 0 (W - 0) flagsR).consumed (#[] ++ c).size) cs) - 0)
+    flagsF maxDist res rfl ⟨rfl, rfl, rfl⟩ hfl.flat (by rw [hfl.zlib]; exact hz) (by rw [hfl.stop]; exact hstop) (Nat.zero_le _)
+    (by rw [hpre, Array.empty_append]; exact hspec)
+  rw [hone.1, ← hl1] at hnever
+  exact hnever
+
 end Model.Core
